@@ -98,6 +98,13 @@ def run(ctx, variants=(("verif", "c04"), ("verif,unsafe", "c04u"))):
         if frames is None:
             broken.append({"kind": "obligation", "name": "reference frames", "detail": ferr})
             continue
+        # … and the same values as a NEWER peer sends them: unknown tagged fields in the header and in every struct (flexible versions)
+        xframes, xerr = codec.unknown_tag_frames(ctx, orc, lines)
+        if xframes is None:
+            broken.append({"kind": "obligation", "name": "frames with unknown tagged fields", "detail": xerr})
+            xframes = []
+        ctx.coverage["frames_with_unknown_tagged_fields"] = ctx.coverage.get("frames_with_unknown_tagged_fields", 0) + len(xframes)
+        frames = frames + xframes
         path = os.path.join(os.path.dirname(drv), "c04-spec-%s-%d.txt" % (name, ctx.seed))
         # the override request type (rawproduce) is never selected by ReadRequest
         codec.write_cases(path, [f for f in frames if f[2]])
